@@ -404,6 +404,78 @@ def cli_pass(reps, tier, t0):
     return res
 
 
+# scripts that read standard input (readln / read / input have fixed internal buffers) x inputs sized around those buffers
+STDIN_PROGS = [
+    ('s = ""; n = 0; while readln(s) loop n = n + strlen(s); if n > 100000 then break; end if; end loop; print n;', "readln-string"),
+    ('b = raw(); n = 0; while readln(b) loop n = n + b.count(); if n > 100000 then break; end if; end loop; print n;', "readln-bytes"),
+    ('s = ""; n = read(s); print n strlen(s); n = read(s, 5000); print n; n = read(s, 0); print n;', "read-string"),
+    ('b = raw(); n = read(b, 1023); print n; n = read(b, 1024); print n; n = read(b, 1025); print n; n = read(b, 1048577); print n;', "read-bytes"),
+    ('b = raw(); n = read(b, 31); n = read(b, 32); n = read(b, 33); print n b.count();', "read-small"),
+    ('x = input(); print strlen(x); y = input("prompt> "); print isnull(y);', "input"),
+    ('s = null; begin zz = readln(s); exception when others then print "refused"; end; t = 5; begin zz = read(s, 3); exception when others then print "refused"; end;', "untyped-target"),
+]
+
+
+def stdin_data():
+    for size in (0, 1, 31, 32, 33, 1022, 1023, 1024, 1025, 2047, 2048, 2049, 5000):
+        yield b"a" * size, "no-newline-%d" % size
+        yield b"a" * size + b"\n", "one-line-%d" % size
+        if size >= 31:
+            yield (b"ab\x00cd\xff\n" * (size // 7 + 1))[:size], "mixed-%d" % size
+            yield b"\n" * size, "empty-lines-%d" % size
+            yield b"x" * (size - 1) + b"\r\n" + b"tail", "crlf-at-%d" % size
+
+
+def stdin_pass(tier):
+    """programs that read standard input through `bloc file` with every input: exit status 0/1, no sanitizer report"""
+    build.build_tree("asan")
+    exe = os.path.join(build.tree_dir("asan"), "apps", "bloc")
+    env = build.run_env("asan")
+    env["ASAN_OPTIONS"] = "detect_leaks=0:abort_on_error=1:allocator_may_return_null=1"
+    env["UBSAN_OPTIONS"] = "halt_on_error=0:print_stacktrace=0"
+    res = Result()
+    sdir = os.path.join(build.BUILD, "scratch", "cli-c01")
+    os.makedirs(sdir, exist_ok=True)
+    jobs = []
+    for n, (text, why) in enumerate(STDIN_PROGS):
+        path = os.path.join(sdir, "in%d.bloc" % n)
+        with open(path, "w") as f:
+            f.write(text)
+        for data, dn in stdin_data():
+            jobs.append((path, text, why, data, dn))
+
+    def one(job):
+        path, text, why, data, dn = job
+        try:
+            p = subprocess.run([exe, path], input=data, stdout=subprocess.PIPE, stderr=subprocess.PIPE, env=env, timeout=30)
+            return p.returncode, p.stdout, p.stderr.decode("latin-1")
+        except subprocess.TimeoutExpired:
+            return "timeout", b"", ""
+    import concurrent.futures
+    with concurrent.futures.ThreadPoolExecutor(max_workers=16) as ex:
+        results = list(ex.map(one, jobs))
+    for (path, text, why, data, dn), (rc, out, err) in zip(jobs, results):
+        res.evaluations += 1
+        res.transitions += 1
+        res.nontrivial += 1
+        res.digests.add(repr(("stdin", why, dn, rc, out[:60])).encode())
+        bad = None
+        if rc == "timeout":
+            bad = "stdin-hang"
+        elif rc not in (0, 1):
+            bad = "stdin-exit:%s" % rc
+        elif "runtime error:" in err:
+            bad = "stdin-ubsan"
+        if bad:
+            e = res.viols.setdefault(bad + ":" + why, {"count": 0, "first": None})
+            e["count"] += 1
+            if e["first"] is None:
+                e["first"] = (Violation(bad + ":" + why, "bloc running %r with %d bytes on standard input (%s) exited with %s: %s" % (text, len(data), dn, rc, err[-600:]), None,
+                                        {"text": text, "stdin": data.hex()}), {})
+    res.parts.append({"part": "stdin", "cases": res.evaluations})
+    return res
+
+
 CLI_REPS = [(s.encode(), "seed") for s in SEEDS] + [
     (b"", "empty"), (b"\x00", "nul"), (b'"', "open-string"), (b"/*", "open-comment"), (b"a = ;", "perr"), (b"print 1/0;", "rerr"),
     (b"raise x;", "raise"), (b"a = 9223372036854775807 + 1; print a;", "wrap"), (b"print (-9223372036854775807-1) / -1;", "minneg"),
@@ -422,11 +494,12 @@ def run(tier):
                     ("structure", gen_structure(tier))):
         total.merge(explore("%s-%s-%s" % (PROP, tier, name), g, check, chunk=400, deadline=deadline))
     total.merge(cli_pass(CLI_REPS, tier, t0))
+    total.merge(stdin_pass(tier))
     rule = ("(1) all byte strings of length <=2 and length 3 (4, 5 in thorough) over scanner character classes; (2) all token strings of length <=3 (4) "
             "over representative tokens in a context with a variable, table, tuple and function; (3) every truncation, token deletion, adjacent token "
             "swap, token duplication and single-byte substitution of %d valid seed programs; (4) every builtin, operator, type method and @rank with every "
             "argument tuple over a boundary value alphabet (typical, boundary, typed null, untyped null, literal and variable forms); each through the "
-            "C++ and the C API; (4b) every outer loop form x inner construct locking the same table x mutation of the iterated table x use of the iterator; (5) seeds and crash representatives through the bloc command (file and stdin). Non-trivial: at least one step got past "
+            "C++ and the C API; (4b) every outer loop form x inner construct locking the same table x mutation of the iterated table x use of the iterator; (5) seeds and crash representatives through the bloc command (file and stdin); (6) scripts reading standard input (readln, read, input) x inputs sized around the internal buffers. Non-trivial: at least one step got past "
             "the parser (ran or raised a runtime error)" % len(SEEDS))
     return finish(PROP, tier, total, check, rule, t0,
                   assumptions=["clang 14 ASan+UBSan detect the invalid accesses", "allocation sizes capped at 65536 (out of the property's domain above)",
